@@ -472,3 +472,57 @@ def _closure_called_in_loop(prog, clo):
         if pc and clo.path in (pc.get("fn_args") or []) and callee_decl(pc).startswith("core::iter::"):
             return True
     return False
+
+
+# ------------------------------------------------------------------------------------------
+# a range-based search runs on a solver that holds the range definitions
+
+
+def rule_range_encoding(ctx):
+    prog = ctx.prog
+    r = ctx.rule(
+        "range-search-on-range-encoding",
+        "a maximal-extension computer whose improvement / discard functions read the range variables (`first_range_var`) is always created on a "
+        "SAT solver that was filled by `encode_constraints_and_range`: on a solver filled by `encode_constraints` the range variables are "
+        "unconstrained and the search returns sets that are not range-maximal",
+    )
+    # factories: local functions that install closures reading the range variables
+    factories = []
+    for b in prog.lib_bodies():
+        if b.kind == "closure" or not (b.path.startswith("solvers::") or "<solvers::" in b.path.split(" as ")[0]):
+            continue
+        reach = prog.reachable_from([b], virtual_dispatch=False)
+        uses_range = any(callee_matches(callee_of(s), r"ConstraintsEncoder::first_range_var$") for x in reach.values() for s in x.calls())
+        installs = any(callee_matches(callee_of(s), r"MaximalExtensionComputer::set_(increase_current|discard_maximal|discard_current)_fn$") for s in b.calls())
+        if uses_range and installs:
+            factories.append(b)
+    if not r.require_anchor(factories, "function installing range-reading closures on a MaximalExtensionComputer"):
+        return
+    n = 0
+    for fb in factories:
+        for cs in prog.callers_of(fb):
+            b = cs.body
+            fn = prog.enclosing_fn(b)
+            # the solver handed to the factory
+            sol_args = [a for i, a in enumerate(cs.node["args"]) if "SatSolver" in fb.local_ty(i + 1)]
+            if not sol_args:
+                continue
+            n += 1
+            anchor = "%s|range-computer#%d" % (b.id, n)
+            want = {(x[2].body.id, x[2].bb) for x in _solver_creations(prog, b, sol_args[0]) if x[0] == "site"}
+            if not want:
+                r.ok(anchor, "solver passed in by the caller: not decided here", cs.loc())
+                continue
+            encs = []
+            for x in prog.with_closures(fn):
+                for s in x.calls():
+                    if callee_matches(callee_of(s), ENCODE):
+                        got = {(y[2].body.id, y[2].bb) for y in _solver_creations(prog, x, s.node["args"][2]) if y[0] == "site"}
+                        if got & want:
+                            encs.append(s)
+            if not encs:
+                r.violation(anchor, "not-encoded", "the range-based computer is created on a solver that no encoding call of %s filled" % fn.path, cs.loc())
+                continue
+            bad = [s for s in encs if not callee_matches(callee_of(s), r"encode_constraints_and_range$")]
+            r.check(not bad, anchor, "plain-encoding", "the solver was filled by encode_constraints_and_range", "the range-based computer runs on a solver filled by `encode_constraints` (no range definitions): its range maximisation is meaningless", (bad[0].loc() if bad else cs.loc()))
+    r.floor(n, 3, "creations of a range-based maximal-extension computer")
